@@ -4,9 +4,11 @@ import (
 	"bytes"
 	"encoding/binary"
 	"encoding/json"
+	"errors"
 	"fmt"
 	"io"
 	"net/http"
+	"os"
 	"testing"
 
 	"golang.org/x/net/internal/zzverif/vx"
@@ -132,11 +134,27 @@ type c59Half struct {
 // bufio.Reader) with short reads: a Read returns at most max octets (0 = no
 // limit) and never crosses one of the stream offsets in cuts. The default
 // transport (no limit, no cuts) hands over everything that is available.
+//
+// Transient errors: for each entry of faults (ascending, At-With of an entry >=
+// At of the one before) no Read crosses the stream offsets At-With and At, and
+// the Read that starts at offset At-With returns the next With octets together
+// with os.ErrDeadlineExceeded (With = 0: no octets, only the error), i.e. what
+// a net.Conn does when its read deadline expires while the rest of the stream
+// is still in flight. Nothing is lost: the following Read continues at offset
+// At as if nothing had happened.
 type c59Trickle struct {
-	src  *bytes.Buffer
-	max  int
-	cuts []int // ascending
-	off  int
+	src    *bytes.Buffer
+	max    int
+	cuts   []int // ascending
+	off    int
+	faults []c59Fault
+	fired  int // number of faults delivered so far
+}
+
+// c59Fault is one transient transport error, surfacing at stream offset At.
+type c59Fault struct {
+	At   int `json:"at"`
+	With int `json:"with_octets"`
 }
 
 func (t *c59Trickle) Read(p []byte) (int, error) {
@@ -152,9 +170,30 @@ func (t *c59Trickle) Read(p []byte) (int, error) {
 			break
 		}
 	}
+	if t.fired < len(t.faults) {
+		f := t.faults[t.fired]
+		if t.off == f.At-f.With && len(p) >= f.With {
+			t.fired++
+			k, _ := io.ReadFull(t.src, p[:f.With])
+			t.off += k
+			return k, os.ErrDeadlineExceeded
+		}
+		for _, c := range []int{f.At - f.With, f.At} {
+			if c > t.off && c-t.off < n {
+				n = c - t.off
+			}
+		}
+	}
 	k, err := t.src.Read(p[:n])
 	t.off += k
 	return k, err
+}
+
+// c59Transient reports whether err is the kind of error an application
+// retries after: a timeout in the sense of net.Error.
+func c59Transient(err error) bool {
+	var te interface{ Timeout() bool }
+	return err != nil && errors.As(err, &te) && te.Timeout()
 }
 
 func (h c59Half) Read(p []byte) (int, error)  { return h.r.Read(p) }
@@ -164,18 +203,23 @@ func (h c59Half) Close() error                { return nil }
 type c59Link struct {
 	c2s, s2c *bytes.Buffer
 	cli, srv *Conn
+	tr       *c59Trickle // the receiving side's transport when it deviates from the default
 }
 
 // c59NewLink joins a client and a server Conn; the transport read policy
 // (max, cuts) applies to the side that receives in direction dir.
-func c59NewLink(dir, max int, cuts []int) *c59Link {
+func c59NewLink(dir, max int, cuts []int) *c59Link { return c59NewLinkF(dir, max, cuts, nil) }
+
+func c59NewLinkF(dir, max int, cuts []int, faults []c59Fault) *c59Link {
 	l := &c59Link{c2s: new(bytes.Buffer), s2c: new(bytes.Buffer)}
 	var cliR, srvR io.Reader = l.s2c, l.c2s
-	if max > 0 || len(cuts) > 0 {
+	if max > 0 || len(cuts) > 0 || len(faults) > 0 {
 		if dir == 0 {
-			srvR = &c59Trickle{src: l.c2s, max: max, cuts: cuts}
+			l.tr = &c59Trickle{src: l.c2s, max: max, cuts: cuts, faults: faults}
+			srvR = l.tr
 		} else {
-			cliR = &c59Trickle{src: l.s2c, max: max, cuts: cuts}
+			l.tr = &c59Trickle{src: l.s2c, max: max, cuts: cuts, faults: faults}
+			cliR = l.tr
 		}
 	}
 	l.cli = newHybiClientConn(&Config{Version: ProtocolVersionHybi13}, nil, c59Half{r: cliR, w: l.c2s})
@@ -206,11 +250,27 @@ type c59Case struct {
 	RBuf  int       `json:"read_buf"`
 	Chunk int       `json:"transport_read_max,omitempty"` // receiver's transport returns at most this many octets per Read (0 = all available)
 	Cuts  []int     `json:"transport_cuts,omitempty"`     // stream offsets that no transport Read crosses
+	// transient transport read errors (read deadline expired), each followed by a retry of the failed Receive/Read
+	Faults []c59Fault `json:"transport_transient_errors,omitempty"`
 }
 
 func (x c59Case) short() bool { return x.Chunk > 0 || len(x.Cuts) > 0 }
 
-func (x c59Case) where() string { return c59DirName(x.Dir) + c59Policy(x.Chunk, x.Cuts) }
+func (x c59Case) where() string {
+	s := c59DirName(x.Dir) + c59Policy(x.Chunk, x.Cuts)
+	for _, f := range x.Faults {
+		s += fmt.Sprintf(" [transport read at stream offset %d returns %d octets + timeout, then continues; the application retries]", f.At-f.With, f.With)
+	}
+	return s
+}
+
+// sig appends the abstract transport situation to a signature.
+func (x c59Case) sig(sig string) string {
+	if len(x.Faults) > 0 {
+		return sig + ":transient-read-error-retried"
+	}
+	return c59Sig(sig, x.short())
+}
 
 func (x c59Frag) where() string { return c59DirName(x.Dir) + c59Policy(x.Chunk, nil) }
 
@@ -356,7 +416,7 @@ func c59Pongs(w *vx.W, x c59Case, l *c59Link) bool {
 	_, _, _, back, sndIsClient := l.ends(x.Dir)
 	frames, err := c59Decode(back.Bytes())
 	if err != nil {
-		w.Failf(c59Sig("C59/ping/reply-undecodable", x.short()), "%s %v: the receiver's output does not decode: %v", x.where(), x.Items, err)
+		w.Failf(x.sig("C59/ping/reply-undecodable"), "%s %v: the receiver's output does not decode: %v", x.where(), x.Items, err)
 		return false
 	}
 	var pings [][]byte
@@ -366,17 +426,17 @@ func c59Pongs(w *vx.W, x c59Case, l *c59Link) bool {
 		}
 	}
 	if len(frames) != len(pings) {
-		w.Failf(c59Sig("C59/ping/pong-count", x.short()), "%s %v: receiver wrote %d frames for %d pings", x.where(), x.Items, len(frames), len(pings))
+		w.Failf(x.sig("C59/ping/pong-count"), "%s %v: receiver wrote %d frames for %d pings", x.where(), x.Items, len(frames), len(pings))
 		return false
 	}
 	for i, f := range frames {
 		switch {
 		case f.Op != PongFrame || !f.Fin:
-			w.Failf(c59Sig("C59/ping/not-a-pong", x.short()), "%s %v: reply %d has opcode %d FIN=%v", x.where(), x.Items, i, f.Op, f.Fin)
+			w.Failf(x.sig("C59/ping/not-a-pong"), "%s %v: reply %d has opcode %d FIN=%v", x.where(), x.Items, i, f.Op, f.Fin)
 		case !bytes.Equal(f.Payload, pings[i]):
-			w.Failf(c59Sig("C59/ping/pong-payload", x.short()), "%s %v: pong %d carries %s, ping carried %s", x.where(), x.Items, i, c59Short(f.Payload), c59Short(pings[i]))
+			w.Failf(x.sig("C59/ping/pong-payload"), "%s %v: pong %d carries %s, ping carried %s", x.where(), x.Items, i, c59Short(f.Payload), c59Short(pings[i]))
 		case f.Masked == sndIsClient:
-			w.Failf(c59Sig("C59/ping/pong-mask", x.short()), "%s %v: pong %d has MASK=%v", x.where(), x.Items, i, f.Masked)
+			w.Failf(x.sig("C59/ping/pong-mask"), "%s %v: pong %d has MASK=%v", x.where(), x.Items, i, f.Masked)
 		default:
 			continue
 		}
@@ -385,12 +445,40 @@ func c59Pongs(w *vx.W, x c59Case, l *c59Link) bool {
 	return true
 }
 
+// c59Receive is what an application with a read deadline does: a Receive that
+// fails with a timeout is called again (at most once per injected transient
+// error; any further error is returned as it is).
+func c59Receive(cd Codec, rcv *Conn, v interface{}, retries *int, budget int) error {
+	for {
+		err := cd.Receive(rcv, v)
+		if !c59Transient(err) || *retries >= budget {
+			return err
+		}
+		*retries++
+	}
+}
+
+// c59FaultsDone checks the harness's own premise for a case with transient
+// errors: every injected error was delivered by the transport and was seen
+// (and retried) by the application.
+func c59FaultsDone(w *vx.W, x c59Case, l *c59Link, retries int) bool {
+	if len(x.Faults) == 0 {
+		return true
+	}
+	if l.tr.fired != len(x.Faults) || retries != len(x.Faults) {
+		w.Failf("C59/transient/error-not-surfaced", "%s %v: %d transient errors injected, %d delivered by the transport, %d seen by the application", x.where(), x.Items, len(x.Faults), l.tr.fired, retries)
+		return false
+	}
+	return true
+}
+
 func c59CheckCodec(w *vx.W, x c59Case) {
-	l := c59NewLink(x.Dir, x.Chunk, x.Cuts)
+	l := c59NewLinkF(x.Dir, x.Chunk, x.Cuts, x.Faults)
 	if !c59Send(w, x, l) {
 		return
 	}
 	_, rcv, _, _, _ := l.ends(x.Dir)
+	retries := 0
 	rcv.MaxPayloadBytes = x.Max
 	limit := x.Max
 	if limit == 0 {
@@ -409,50 +497,54 @@ func c59CheckCodec(w *vx.W, x c59Case) {
 		}
 		if x.Mode == "json" {
 			var got string
-			err := JSON.Receive(rcv, &got)
+			err := c59Receive(JSON, rcv, &got, &retries, len(x.Faults))
 			if err != nil {
-				w.Failf(c59Sig("C59/receive/json-error", x.short()), "%s: %v", where, err)
+				w.Failf(x.sig("C59/receive/json-error"), "%s: %v", where, err)
 				return
 			}
 			if got != string(want) {
-				w.Failf(c59Sig("C59/receive/json-value", x.short()), "%s: got %d-byte string, want %d-byte string", where, len(got), len(want))
+				w.Failf(x.sig("C59/receive/json-value"), "%s: got %d-byte string, want %d-byte string", where, len(got), len(want))
 				return
 			}
 			continue
 		}
 		var r c59Rec
-		err := c59Capture.Receive(rcv, &r)
+		err := c59Receive(c59Capture, rcv, &r, &retries, len(x.Faults))
 		if len(want) > limit {
 			if err != ErrFrameTooLarge {
-				w.Failf(c59Sig("C59/receive/oversized-not-refused"+after, x.short()), "%s: Receive = %v (payload %s), want ErrFrameTooLarge", where, err, c59Short(r.Data))
+				w.Failf(x.sig("C59/receive/oversized-not-refused"+after), "%s: Receive = %v (payload %s), want ErrFrameTooLarge", where, err, c59Short(r.Data))
 				return
 			}
 			tooLarge = true
 			continue
 		}
 		if err != nil {
-			w.Failf(c59Sig("C59/receive/error"+after, x.short()), "%s: Receive: %v", where, err)
+			w.Failf(x.sig("C59/receive/error"+after), "%s: Receive: %v", where, err)
 			return
 		}
 		if r.T != c59Op(it.K) {
-			w.Failf(c59Sig("C59/receive/payload-type"+after, x.short()), "%s: payload type %d, want %d", where, r.T, c59Op(it.K))
+			w.Failf(x.sig("C59/receive/payload-type"+after), "%s: payload type %d, want %d", where, r.T, c59Op(it.K))
 			return
 		}
 		if !bytes.Equal(r.Data, want) {
-			w.Failf(c59Sig("C59/receive/bytes"+after, x.short()), "%s: got %s, want %s", where, c59Short(r.Data), c59Short(want))
+			w.Failf(x.sig("C59/receive/bytes"+after), "%s: got %s, want %s", where, c59Short(r.Data), c59Short(want))
 			return
 		}
 	}
 	var r c59Rec
-	if err := c59Capture.Receive(rcv, &r); err != io.EOF {
-		w.Failf(c59Sig("C59/receive/extra-or-missing-end", x.short()), "%s %v: Receive after the last message = %v (type %d, %s), want io.EOF", x.where(), x.Items, err, r.T, c59Short(r.Data))
+	if err := c59Receive(c59Capture, rcv, &r, &retries, len(x.Faults)); err != io.EOF {
+		w.Failf(x.sig("C59/receive/extra-or-missing-end"), "%s %v: Receive after the last message = %v (type %d, %s), want io.EOF", x.where(), x.Items, err, r.T, c59Short(r.Data))
 		return
 	}
-	if !c59Pongs(w, x, l) {
+	if !c59Pongs(w, x, l) || !c59FaultsDone(w, x, l, retries) {
 		return
 	}
 	w.Nontrivial()
 	switch {
+	case len(x.Faults) > 0 && tooLarge:
+		w.Outcome("oversized-refused/transient-read-error-retried")
+	case len(x.Faults) > 0:
+		w.Outcome("delivered/transient-read-error-retried")
 	case tooLarge:
 		w.Outcome("oversized-refused")
 	case x.Mode == "json":
@@ -465,7 +557,7 @@ func c59CheckCodec(w *vx.W, x c59Case) {
 }
 
 func c59CheckRaw(w *vx.W, x c59Case) {
-	l := c59NewLink(x.Dir, x.Chunk, x.Cuts)
+	l := c59NewLinkF(x.Dir, x.Chunk, x.Cuts, x.Faults)
 	if !c59Send(w, x, l) {
 		return
 	}
@@ -486,21 +578,22 @@ func c59CheckRaw(w *vx.W, x c59Case) {
 	}
 	buf := make([]byte, n)
 	var got []byte
+	retries := 0
 	for {
 		k, err := rcv.Read(buf)
 		if k > 0 {
 			if rcv.frameReader == nil {
-				w.Failf(c59Sig("C59/raw-read/no-current-frame", x.short()), "%s %v: Read returned %d bytes without a current frame", x.where(), x.Items, k)
+				w.Failf(x.sig("C59/raw-read/no-current-frame"), "%s %v: Read returned %d bytes without a current frame", x.where(), x.Items, k)
 				return
 			}
 			pt := rcv.frameReader.PayloadType()
 			if len(got)+k > len(want) {
-				w.Failf(c59Sig("C59/raw-read/too-many-bytes", x.short()), "%s %v: read %d bytes, only %d were sent", x.where(), x.Items, len(got)+k, len(want))
+				w.Failf(x.sig("C59/raw-read/too-many-bytes"), "%s %v: read %d bytes, only %d were sent", x.where(), x.Items, len(got)+k, len(want))
 				return
 			}
 			for j := 0; j < k; j++ {
 				if wantT[len(got)+j] != pt {
-					w.Failf(c59Sig("C59/raw-read/payload-type", x.short()), "%s %v: octet %d delivered with payload type %d, want %d", x.where(), x.Items, len(got)+j, pt, wantT[len(got)+j])
+					w.Failf(x.sig("C59/raw-read/payload-type"), "%s %v: octet %d delivered with payload type %d, want %d", x.where(), x.Items, len(got)+j, pt, wantT[len(got)+j])
 					return
 				}
 			}
@@ -509,23 +602,31 @@ func c59CheckRaw(w *vx.W, x c59Case) {
 		if err == io.EOF {
 			break
 		}
+		if c59Transient(err) && retries < len(x.Faults) {
+			retries++ // the application calls Read again
+			continue
+		}
 		if err != nil {
-			w.Failf(c59Sig("C59/raw-read/error", x.short()), "%s %v: Read: %v after %d bytes", x.where(), x.Items, err, len(got))
+			w.Failf(x.sig("C59/raw-read/error"), "%s %v: Read: %v after %d bytes", x.where(), x.Items, err, len(got))
 			return
 		}
 		if k == 0 {
-			w.Failf(c59Sig("C59/raw-read/zero-progress", x.short()), "%s %v: Read returned 0, nil", x.where(), x.Items)
+			w.Failf(x.sig("C59/raw-read/zero-progress"), "%s %v: Read returned 0, nil", x.where(), x.Items)
 			return
 		}
 	}
 	if !bytes.Equal(got, want) {
-		w.Failf(c59Sig("C59/raw-read/bytes", x.short()), "%s %v: read %d bytes, want %d; first difference at %d", x.where(), x.Items, len(got), len(want), c59Diff(got, want))
+		w.Failf(x.sig("C59/raw-read/bytes"), "%s %v: read %d bytes, want %d; first difference at %d", x.where(), x.Items, len(got), len(want), c59Diff(got, want))
 		return
 	}
-	if !c59Pongs(w, x, l) {
+	if !c59Pongs(w, x, l) || !c59FaultsDone(w, x, l, retries) {
 		return
 	}
 	w.Nontrivial()
+	if len(x.Faults) > 0 {
+		w.Outcome(fmt.Sprintf("raw-read/buf=%d/transient-read-error-retried", x.RBuf))
+		return
+	}
 	if x.short() {
 		w.Outcome(fmt.Sprintf("raw-read/buf=%d/short-transport-reads", x.RBuf))
 		return
@@ -594,6 +695,105 @@ func c59ShortGen(mode string, alphabet []c59Item, minLen, maxLen int, rbufs []in
 				})
 				if !ok {
 					return
+				}
+			}
+		}
+	}
+}
+
+// ---- transient transport errors with retry
+
+// c59FaultOffsets lists the stream offsets 0 <= o <= total at which a transient
+// transport error is made to surface. They are the offsets at which the call
+// that fails has consumed nothing the application was not told about, so that
+// calling it again is meaningful by the package's own documentation: a frame
+// boundary (nothing of the next frame consumed yet; the end of the stream
+// included), any offset inside the payload of a message that Receive has refused
+// as oversized ("frame is not read off wire completely. The next call to
+// Receive would read and discard leftover data"), and for Conn.Read any offset
+// inside the payload of a data frame ("next Read will read the rest of the
+// frame data"). Computed from the RFC 6455 layout alone. For payloads > 40
+// octets only the offsets within 20 octets of the payload's ends and those
+// 0, 1 or 4095 octets past a multiple of 4096 payload octets (bufio.Reader
+// and io.Copy block sizes) are taken.
+func c59FaultOffsets(dir int, items []c59Item, limit int, raw bool) []int {
+	starts, ends := c59Layout(dir, items)
+	total := ends[len(ends)-1]
+	var out []int
+	for o := 0; o <= total; o++ {
+		ok := o == total
+		for i, it := range items {
+			s, e := starts[i], ends[i]
+			ps := e - it.N
+			if o == s {
+				ok = true
+			}
+			if it.K != 'p' && (raw || it.N > limit) && o >= ps && o <= e {
+				d := o - ps
+				ok = ok || it.N <= 40 || d <= 20 || e-o <= 20 || d%4096 <= 1 || d%4096 == 4095
+			}
+		}
+		if ok {
+			out = append(out, o)
+		}
+	}
+	return out
+}
+
+// c59FaultGen yields, for every direction, limit, read buffer, item sequence
+// and transport chunking, every placement of nFaults transient errors: each
+// surfaces at one offset of c59FaultOffsets and arrives together with 0, 1 or
+// 3 octets (pairs: 0 or 1), later ones not before earlier ones (the same
+// offset twice = the retry times out again).
+func c59FaultGen(mode string, alphabet []c59Item, minLen, maxLen int, maxes, rbufs, chunks []int, nFaults int) func(func(c59Case) bool) {
+	return func(yield func(c59Case) bool) {
+		for _, dir := range []int{0, 1} {
+			for _, mx := range maxes {
+				limit := mx
+				if limit == 0 {
+					limit = DefaultMaxPayloadBytes
+				}
+				for _, rb := range rbufs {
+					ok := vx.Strings(alphabet, minLen, maxLen, func(items []c59Item) bool {
+						offs := c59FaultOffsets(dir, items, limit, mode == "raw")
+						for _, ch := range chunks {
+							withs := []int{0, 1, 3}
+							if nFaults == 2 {
+								withs = []int{0, 1}
+							}
+							var fs []c59Fault
+							for _, o := range offs {
+								for _, k := range withs {
+									if k <= o && (ch == 0 || k <= ch) {
+										fs = append(fs, c59Fault{At: o, With: k})
+									}
+								}
+							}
+							for i, f := range fs {
+								x := c59Case{Dir: dir, Mode: mode, Items: items, Max: mx, RBuf: rb, Chunk: ch}
+								if nFaults == 1 {
+									x.Faults = []c59Fault{f}
+									if !yield(x) {
+										return false
+									}
+									continue
+								}
+								for _, g := range fs[i:] {
+									if g.At-g.With < f.At {
+										continue
+									}
+									x.Faults = []c59Fault{f, g}
+									if !yield(x) {
+										return false
+									}
+								}
+							}
+						}
+						return true
+					})
+					if !ok {
+						return
+					}
 				}
 			}
 		}
@@ -816,7 +1016,9 @@ func TestVerif_C59(t *testing.T) {
 		c.Rule("codec: both directions x every sequence of <= 2 items (thorough: <= 3) over {text, binary} x payload length {0,1,125,126,127,65535,65536,70000} plus PING (0, 5, 125 octets, spliced in by an independent encoder) x MaxPayloadBytes {0,10,126,65536}; quick adds length-3 sequences over a 6-item sub-alphabet with limits {0,126}. Sender = real Conn via Message.Send; the wire image is decoded by an independent RFC 6455 codec (MASK bit by role, FIN/RSV, opcode, minimal length encoding, unmasked payload); receiver = real Conn via Codec.Receive with a type-capturing codec; oversized => ErrFrameTooLarge and the following messages intact; every PING answered by one PONG with the same payload; non-trivial = whole sequence sent, wire-checked, received and compared")
 		c.Rule("raw: the same with Conn.Write / Conn.Read and read buffers {1, 100, 128 KiB}: the octet stream and the payload type of every octet; json: JSON codec over the length boundaries; fragment: peer-encoded messages of 2..3 fragments of {0,1,126} octets, every placement of PINGs between/after fragments, read per frame (Codec.Receive) and as a stream (Read), optionally followed by a message of the other type; mask: an unmasked client frame / masked server frame (text, binary, ping, continuation; after 0..2 good messages) must make Receive/Read fail")
 		c.Rule("short-read (default transport = every Read returns all available octets; deviations on the receiver's transport, the io.Reader below its bufio.Reader): both directions x every sequence of <= 2 items (thorough: <= 3) over {text 5, binary 1, binary 126, text 65536, PING 0, 1, 2, 100, 125}, quick adds the length-3 sequences over {text 5, binary 1, PING 1, 2, 100, 125}, x { every transport Read returns at most 1 / 3 / 7 octets; the stream is cut in two at one offset, for every offset inside a PING frame or within 20 octets of a frame boundary (= every octet of every header, extended length and masking key, every octet of frames <= 40 octets) }, received with Codec.Receive (short-read) and Conn.Read with a 3-octet and a 128 KiB buffer (raw-short); short-read-2cuts: text 5 | PING n | binary 5 for n in {1,2,100,125}, both directions, every pair of cut offsets of the whole stream. Same oracles: messages intact and typed, exactly one PONG per PING with the complete payload. fragment: additionally every transport Read capped at {1,3,7} octets")
+		c.Rule("transient (environment answer of the receiver's transport; default = no error; deviation bound 1, thorough part transient-2faults: 2): both directions x every sequence of <= 2 items (thorough: <= 3) over {text 5, binary 1, PING 2, binary 126, binary 5000; thorough: + text 65536}, quick adds the length-3 sequences over the first four, x MaxPayloadBytes {0, 3, 10} (so that text 5 / binary 126 / binary 5000 are oversized and are followed by normal messages, PINGs and further oversized ones) x one transport Read that returns a timeout error (os.ErrDeadlineExceeded: Timeout() and Temporary() true) together with 0, 1 or 3 octets instead of the data and continues normally on the next call (thorough: also with every other Read capped at 3 octets), for every stream offset at which the failing call has consumed nothing the application was not told about: every frame boundary incl. the end of the stream, every offset inside the payload of a refused (oversized) message [payloads > 40 octets: within 20 octets of the payload's ends and 0/1/4095 octets past each multiple of 4096]; the application calls the failed Receive again. raw-transient: the same over sequences of <= 2 items with Conn.Read (3-octet and 128 KiB buffer), offsets = frame boundaries and inside any data frame's payload; the application calls Read again. transient-2faults (thorough): every ordered pair of such errors (0 or 1 octets; the same offset twice = the retry times out again). Same oracles: oversized => ErrFrameTooLarge and the following messages intact and typed, stream ends with io.EOF, one PONG per PING; plus the harness premise that each injected error was returned to the application exactly once")
 		c.Assume("one goroutine, in-memory byte buffers as transport (a read at the end of the buffered stream returns io.EOF instead of blocking; a short read returns >= 1 octet, never 0,nil); masking keys are random: only MASK bit and unmasked payload are compared")
+		c.Assume("transient transport errors: the transport honours the net.Conn deadline contract that Conn.SetDeadline / SetReadDeadline hand through to it (they only forward to the underlying net.Conn: 'sets the connection's network read deadline'): a Read that fails with a timeout loses no octets and the connection stays usable, and an application may call the failed Receive/Read again. The retry is claimed only where the failed call has consumed nothing the application did not see: at a frame boundary, while Receive discards the rest of a message it has refused (documented: 'frame is not read off wire completely. The next call to Receive would read and discard leftover data of previous oversized frame'), and for Conn.Read inside a data frame ('next Read will read the rest of the frame data'). A timeout inside a frame header, inside a control frame's payload or while Receive is buffering an accepted payload makes the unchanged package lose its place in the stream too (observed); the package documents no recovery there and the property does not claim one, so these offsets are not enumerated")
 		c.Assume("Codec.Receive is documented to deliver one frame per call, so fragments are compared per frame; Conn.Read skips empty frames, so the raw oracle is the octet stream; text payloads are ASCII (UTF-8 validation is outside the property); handshake and Close are not exercised")
 
 		gen := func(mode string, alphabet []c59Item, maxLen int, maxes, rbufs []int) func(func(c59Case) bool) {
@@ -876,6 +1078,18 @@ func TestVerif_C59(t *testing.T) {
 				}
 			}
 		}, c59CheckCodec)
+
+		faultAlpha := []c59Item{{'t', 5}, {'b', 1}, {'p', 2}, {'b', 126}, {'b', 5000}}
+		if !c.Quick() {
+			faultAlpha = append(faultAlpha, c59Item{'t', 65536})
+		}
+		vx.Enumerate(c, "transient", vx.Opts{NoSample: true}, c59FaultGen("codec", faultAlpha, 1, vx.Pick(c, 2, 3), []int{0, 3, 10}, []int{0}, vx.Pick(c, []int{0}, []int{0, 3}), 1), c59CheckCodec)
+		if c.Quick() {
+			vx.Enumerate(c, "transient-3", vx.Opts{NoSample: true}, c59FaultGen("codec", faultAlpha[:4], 3, 3, []int{3, 10}, []int{0}, []int{0}, 1), c59CheckCodec)
+		} else {
+			vx.Enumerate(c, "transient-2faults", vx.Opts{NoSample: true}, c59FaultGen("codec", faultAlpha, 1, 2, []int{0, 3, 10}, []int{0}, []int{0}, 2), c59CheckCodec)
+		}
+		vx.Enumerate(c, "raw-transient", vx.Opts{NoSample: true}, c59FaultGen("raw", faultAlpha, 1, 2, []int{0}, []int{3, 0}, vx.Pick(c, []int{0}, []int{0, 3}), 1), c59CheckRaw)
 
 		var jsonItems []c59Item
 		for _, n := range []int{0, 1, 123, 124, 125, 65533, 65534, 70000} { // +2 quotes => 2,3,125,126,127,65535,65536
